@@ -198,6 +198,44 @@ def run_models(ctx):
                     expect="violation")
 
 
+def run_utils(ctx):
+    """Utils.tla: the complete small case space of the shared helpers, replayed into xrspatial.utils"""
+    jobs = [{"op": "dispatch", "kind": k} for k in ("numpy", "dask_numpy", "list")]
+    variants = []
+    for shape, chs in (([2, 3], [[[2], [3]], [[1, 1], [1, 2]], [[2], [1, 1, 1]]]),
+                       ([3, 2], [[[3], [2]], [[1, 2], [1, 1]]])):
+        variants.append({"kind": "numpy", "shape": shape, "chunks": []})
+        for c in chs:
+            variants.append({"kind": "dask_numpy", "shape": shape, "chunks": c})
+    for n in (1, 2, 3):
+        for combo in itertools.product(variants, repeat=n):
+            jobs.append({"op": "validate", "arrs": [dict(a) for a in combo]})
+    geos = [(0, 4, 5, 0, 6, 4, False), (10, 13, 4, -2, 4, 3, True), (0, 1, 3, 5, 6, 2, False), (-5, 5, 6, 0, 9, 4, True)]
+    for (xmin, xmax, w, ymin, ymax, h, ydesc) in geos:
+        base = {"op": "resolution", "xmin": xmin, "xmax": xmax, "w": w, "ymin": ymin, "ymax": ymax, "h": h,
+                "ydesc": ydesc, "res1": 0, "res2": 0}
+        jobs.append(dict(base, resform="none"))
+        for f in ("pair_str", "triple", "str"):
+            jobs.append(dict(base, resform=f))
+        for r1, r2 in ((2, 3), (10, 10), (1, 7)):
+            for cont in ("tuple", "list", "ndarray", "ndarray_int"):
+                jobs.append(dict(base, resform="pair", res1=r1, res2=r2, container=cont))
+            jobs.append(dict(base, resform="scalar", res1=r1, as_float=False))
+            jobs.append(dict(base, resform="scalar", res1=r1, as_float=True))
+    for W in (1, 10, 1000):
+        for x0, x1 in ((0, 35), (-3, 4), (5, 2)):
+            for y0, y1 in ((0, 70), (2, -5), (1, 1), (-7, 9)):
+                jobs.append({"op": "height", "W": W, "x0": x0, "x1": x1, "y0": y0, "y1": y1})
+    res = core.run_jobs("utils_worker", jobs, nproc=4)
+    v = ctx.judge("Utils", res, name="utils_cases", parallel=2)
+    for i, c in enumerate(res):
+        ctx.evaluations += 1
+        cl = v.get(i, "missing")
+        if cl != "ok":
+            ctx.violation("utils:%s" % cl, cl, c, "xrspatial.utils %s" % c["op"])
+    ctx.extra["utils_cases"] = len(res)
+
+
 def known_key(func, clause, case):
     if func == "equal_interval" and clause == "dask_call_raised":
         return "equal_interval:dask-raises"
@@ -218,6 +256,7 @@ def run(ctx):
     rng = random.Random(ctx.seed * 15485863 + 1)
     run_models(ctx)
     ctx.exhaustive = ctx.tier == "thorough"
+    run_utils(ctx)
 
     execute(ctx, build_jobs(ctx, rng))
 
